@@ -3,6 +3,7 @@ from __future__ import annotations
 import contextlib
 import itertools
 import operator
+import re
 import os
 import pickle
 import statistics
@@ -682,6 +683,9 @@ class ReadParquet(PartitionsFiltered, BlockwiseIO):
         )
 
 
+_UNNAMED_INDEX_COLUMN = re.compile(r"__index_level_\d+__$")
+
+
 class ReadParquetPyarrowFS(ReadParquet):
     _parameters = [
         "path",
@@ -1018,11 +1022,29 @@ class ReadParquetPyarrowFS(ReadParquet):
 
         return max(after_projection / total_uncompressed, 0.001)
 
+    @cached_property
+    def _unnamed_index_column(self):
+        """pandas stores an index without a name as ``__index_level_0__``"""
+        schema = self._dataset_info["schema"]
+        stored = [
+            col
+            for col in (schema.pandas_metadata or {}).get("index_columns", [])
+            if isinstance(col, str)
+        ]
+        if (
+            len(stored) == 1
+            and _UNNAMED_INDEX_COLUMN.match(stored[0])
+            and stored[0] in schema.names
+        ):
+            return stored[0]
+
     def _filtered_task(self, index: int):
         columns = self.columns.copy()
         index_name = self.index.name
         if self.index is not None:
             index_name = self.index.name
+        if index_name is None:
+            index_name = self._unnamed_index_column
         schema = self._dataset_info["schema"].remove_metadata()
         if index_name:
             if columns is None:
@@ -1098,6 +1120,8 @@ class ReadParquetPyarrowFS(ReadParquet):
         )
         if index_name is not None:
             df = df.set_index(index_name)
+            if _UNNAMED_INDEX_COLUMN.match(str(index_name)):
+                df.index.name = None
         return df
 
 
